@@ -252,7 +252,7 @@ func driveMul(c *ctx) {
 				v := rep(R1, big.NewInt(int64(3+si)))
 				k.f(v, scFrom(s), p)
 				c.E("mul.ScalarMult", "kind", k.kind, "alias", "none", "s", h32(s), "p", ph, "out", ptRaw(v), "p_post", ptRaw(p))
-				if ki < 2 && (si+pi)%2 == 0 {
+				if (ki < 2 && (si+pi)%2 == 0) || ki >= 2 { // the receiver aliases the point argument (every entry point)
 					p = clonePt(p0)
 					k.f(p, scFrom(s), p)
 					c.E("mul.ScalarMult", "kind", k.kind, "alias", "v=p", "s", h32(s), "p", ph, "out", ptRaw(p))
